@@ -6,6 +6,8 @@ package c18
 import (
 	"context"
 	"fmt"
+	"sync"
+	"sync/atomic"
 
 	"github.com/Comcast/sheens/core"
 	"github.com/Comcast/sheens/match"
@@ -161,7 +163,95 @@ func checkStride(rec *fw.Rec, a *ref.ASpec, from, to *core.State, replay interfa
 	return true
 }
 
+// concurrent: one compiled spec (its actions and guards are shared by every
+// machine of the spec) is walked by many goroutines whose states carry
+// different permanent bindings - or none; each result must equal the result
+// computed alone, and the race detector must stay silent.
+func concurrent(cfg fw.Config, rec *fw.Rec) {
+	rounds := cfg.Pick(40, 400)
+	for round := 0; round < rounds; round++ {
+		r := cfg.Rng("c18-conc", round)
+		u := &gen.Uid{Prefix: fmt.Sprintf("k%d_", round)}
+		a := &ref.ASpec{Name: "c18conc", Nodes: map[string]*ref.ANode{"n2": {}, "aerr": {}}}
+		if round%3 == 1 {
+			a.ActionErrorBranches = true
+		}
+		node := &ref.ANode{Action: hostileProg(r, u, false), Branching: &ref.ABranching{Type: "bindings"}}
+		node.Branching.Branches = append(node.Branching.Branches, &ref.ABranch{Target: "n2", Guard: hostileProg(r, u, true)}, &ref.ABranch{Target: "n2"})
+		a.Nodes["start"] = node
+		render := []string{"native", "native-inplace", "ecma"}[round%3]
+		spec, err := a.Compiled(render != "ecma", ref.NativeNilErr)
+		if err != nil {
+			continue
+		}
+		if render == "native-inplace" {
+			spec.Nodes["start"].Action = inPlace(node.Action)
+			spec.Nodes["start"].Branches.Branches[0].Guard = inPlace(node.Branching.Branches[0].Guard)
+		}
+		G := 16
+		states := make([]map[string]interface{}, G)
+		solo := make([]string, G)
+		walk := func(g int) string {
+			st := &core.State{NodeName: "start", Bs: match.Bindings(fw.Deep(states[g]).(map[string]interface{}))}
+			w, err := spec.Walk(context.Background(), st, nil, &core.Control{Limit: 6}, nil)
+			if err != nil || w == nil {
+				return fmt.Sprint("error ", err)
+			}
+			return fw.Canon(w.To())
+		}
+		for g := 0; g < G; g++ {
+			states[g] = genState(r)
+			if g%4 == 0 {
+				for _, k := range permKeys {
+					delete(states[g], k)
+				}
+			}
+			states[g]["machine"] = float64(g)
+			solo[g] = walk(g)
+		}
+		var wg sync.WaitGroup
+		start := make(chan struct{})
+		var bad int32
+		for g := 0; g < G; g++ {
+			wg.Add(1)
+			go func(g int) {
+				defer wg.Done()
+				<-start
+				for rep := 0; rep < 8; rep++ {
+					var got string
+					if rec.Guard("C18:conc", a, func() { got = walk(g) }) {
+						atomic.AddInt32(&bad, 1)
+						return
+					}
+					if got != solo[g] {
+						if atomic.AddInt32(&bad, 1) == 1 {
+							rec.Violation("C18:concurrent-differs", fmt.Sprintf("machine %d walked concurrently with others over the same spec ends at %s; alone at %s", g, fw.Short(got), fw.Short(solo[g])), map[string]interface{}{"spec": a, "render": render, "state": states[g]})
+						}
+						return
+					}
+				}
+			}(g)
+		}
+		close(start)
+		wg.Wait()
+		rec.Eval(G * 8)
+		if bad == 0 {
+			rec.Bucket("concurrent_rounds_equal_to_solo")
+			rec.Nontrivial(fw.Canon(a))
+			if round%15 == 2 {
+				rec.Sample(map[string]interface{}{"shared_spec": a, "render": render, "goroutines": G})
+			}
+		}
+	}
+}
+
 func Run(cfg fw.Config, rec *fw.Rec) {
+	if cfg.Part == "conc" {
+		rec.Rule = "see the main part; concurrent part: 16 goroutines x 8 walks over one compiled hostile spec (native, native in-place, ECMAScript) from states with different permanent bindings or none, each result compared with the solo result, under -race"
+		rec.Required = []string{"concurrent_rounds_equal_to_solo"}
+		concurrent(cfg, rec)
+		return
+	}
 	rec.Rule = "two-node machines whose action and guards are hostile programs over the permanent keys (delete, overwrite, keep-only, copy-over, push, return {} / a fresh object / null / a number, fail, reject) run from states with 0-3 permanent bindings (scalar, nested, array, null, false values) and 0-3 ordinary ones, native (two failure modes; and a variant that mutates the bindings it is given in place, as core's Bindings.Remove / Extend / DeleteExcept do) and ECMAScript; plus random multi-node machines; for every stride the permanent bindings present before must be present and equal after, unless the node's action returned null (recorded, not judged); non-trivial = stride checked with >= 1 permanent binding; distinct by canonical (spec,state)"
 	rec.Required = []string{"strides_with_permanent_checked", "after_failing_action", "after_completed_action", "guard_rejected_then_next_branch", "guard_accepted", "render_ecma", "render_native", "render_native-inplace", "structured_permanent_value", "unjudged_action_returned_null"}
 	n := cfg.Pick(60000, 800000)
